@@ -178,6 +178,18 @@ def canon(st, r):
     return c
 
 
+def follow_up(sc):
+    """life goes on after the crash: a push to the repository of the interrupted request, another restart, and the push is read back"""
+    repo = sc.request.get("repo") or "a"
+    if sc.conf.get("ro") or not REPO_RE.match(repo):
+        return []
+    data = b"pushed-after-the-crash"
+    m = image_manifest(desc(MT_CFG, b"{}"), [desc(MT_LAYER, data)], annotations={"after": "crash"})
+    return [upload_post(repo, digest=dg("sha256", b"{}"), body=b"{}"), upload_post(repo, digest=dg("sha256", data), body=data),
+            manifest_put(repo, "after-crash", m, ctype=MT_OCI_M), special("reopen"),
+            blob_get(repo, dg("sha256", data)), manifest_get(repo, "after-crash"), manifest_get(repo, dg("sha256", m))]
+
+
 def run(ctx):
     ok_build, blog = ctx.coq_build()
     ok_props, plog = ctx.coq_props() if ok_build else (False, blog)
@@ -237,7 +249,7 @@ def run(ctx):
                     continue
                 cid = 100000 + len(crash_cases)
                 steps = [skip(s) for s in sc.history] + [special("crashat", n=k, partial=partial), skip(sc.request), special("fslog"), special("reopen"),
-                                                         special("snapshot", full=True)] + [skip(p) for p in sc.probes]
+                                                         special("snapshot", full=True)] + [skip(p) for p in sc.probes] + [skip(x) for x in follow_up(sc)]
                 crash_cases.append(dict(id=cid, conf=sc.conf, steps=steps, seed=sc.seed))
                 meta[cid] = (sc, k, partial)
     couts = run_api(ctx, binp, crash_cases, name="crash-points") if crash_cases else {}
@@ -352,6 +364,18 @@ def run(ctx):
                         sig = "C09:artifact-without-referrers-entry"
                     ctx.violation("%s: after a crash %s call %d (%s) the interrupted request is partly in effect: %s" % (sc.name, "inside" if partial else "before", k, call, mixed), rep, sig)
                     bad = True
+            fu = follow_up(sc)
+            if not bad and fu:
+                fr = res[nh + 5 + len(sc.probes):]
+                if len(fr) == len(fu) and all(r.get("status") == 201 for r in fr[:3]):
+                    want = [(200, base64.b64decode(fu[1]["impl"]["b64"])), (200, fu[2]["body"]), (200, fu[2]["body"])]
+                    for st_, r_, (ws, wb) in zip(fu[4:], fr[4:], want):
+                        if r_.get("status") != ws or base64.b64decode(r_.get("b64") or "") != wb:
+                            ctx.violation("%s: after a crash %s call %d (%s) and a restart, a push to %s was acknowledged, but after another restart %s %s answers %s"
+                                          % (sc.name, "inside" if partial else "before", k, call, fu[0]["repo"], st_["kind"], str(st_.get("arg"))[:19], r_.get("status")),
+                                          dict(rep, response=str(r_)[:400]), "C09:push-after-crash-lost")
+                            bad = True
+                            break
             if bad:
                 nbad += 1
     for i, sc in enumerate(scs):
